@@ -327,6 +327,11 @@ HOOK_POINTS_REQ = ["inflight.add", "write.req.pre", "write.req", "main.req", "re
                    "handling.add", "h.call.pre", "h.ret", "h.resp.pre", "lazy.acquire.pre"]
 
 
+PATIENCE_CLAUSES = ("handler-context-not-cancelled-at-connection-end", "cancellation-never-reached-the-handler",
+                    "reverse-call-blocked-after-connection-loss", "reverse-call-of-a-notification-handler-unanswered",
+                    "goroutines-retained-for-dead-connection")
+
+
 def run_ws_scenarios(run, wd, scen, tag, hooks=False, timeout=1800):
     """Runs protocol scenarios against the real code and lets TLC (ObsTrace) evaluate every property predicate on the recorded
     events. Returns (trace, violations) with violations as [scenario, property, clause, call]."""
@@ -342,7 +347,32 @@ def run_ws_scenarios(run, wd, scen, tag, hooks=False, timeout=1800):
     trace = vp.read_ndjson(os.path.join(wd, tf))
     run.cov["traces_validated_against_impl"] += len(scen)
     run.cov["evaluations"] += len(scen)
-    return trace, res.get("viol", [])
+    viol = res.get("viol", [])
+    # Clauses that say "X did not happen while a handler waited for it" rest on a harness timer running out.  On a machine that
+    # is starved (all checks at once, JVMs competing for memory) a process can stand still for seconds and the timer runs out
+    # although the library did its part.  Such an observation is confirmed before it is reported: the scenario is run again on
+    # its own three more times, and the clause is reported if it shows up again in any of them (a defect of this kind shows
+    # up again: the thing never happens, or - if a race is involved - fails to happen often).
+    timed = [v for v in viol if any(str(v[2]).startswith(c) for c in PATIENCE_CLAUSES) and 0 < v[0] <= len(scen)]
+    if timed and not tag.endswith("confirm"):
+        idx = [i for i in sorted({v[0] for v in timed}) for _ in range(3)]   # three more runs each: a racy defect gets its chances
+        ctf = "trace_%sconfirm.ndjson" % tag
+        csf = os.path.join(wd, "scen_%sconfirm.ndjson" % tag)
+        with open(csf, "w") as f:
+            for i in idx:
+                f.write(json.dumps(scen[i - 1]) + "\n")
+        run.harness("wsp", wd, infile=os.path.basename(csf), outfile=ctf, timeout=timeout, args={"hooks": "1"} if hooks else None)
+        shutil.copy(os.path.join(wd, ctf), os.path.join(wd, "trace.ndjson"))
+        res2 = run.validate_trace(wd, "ObsTrace.tla", "ObsTrace.cfg", timeout=1800)
+        shutil.copy(os.path.join(wd, tf), os.path.join(wd, "trace.ndjson"))
+        confirmed = {(idx[v[0] - 1], v[1], v[2]) for v in res2.get("viol", []) if 0 < v[0] <= len(idx)}
+        dropped = [v for v in timed if (v[0], v[1], v[2]) not in confirmed]
+        if dropped:
+            run.cov.setdefault("unconfirmed_timing_observations", []).extend(
+                [{"scenario": scen[v[0] - 1], "property": v[1], "clause": v[2]} for v in dropped][:5])
+            vp.log("%d patience-based observation(s) did not repeat when the scenario was run again on its own; not reported" % len(dropped))
+        viol = [v for v in viol if v not in dropped]
+    return trace, viol
 
 
 def report_ws(run, trace, viol, prop, scen, label):
@@ -1040,7 +1070,8 @@ def c16(run, replay):
     for lose in ("before", "request", "response"):
         for pos in (["cut-hdr", "cut-payload", "cut-last", "before", "after"] if thorough else rnd.sample(["cut-hdr", "cut-payload", "cut-last", "before", "after"], 2)):
             scen.append({"sc": "c16.reverse", "args": {"clients": 2, "calls": 2, "reverse": True, "lose": lose, "pos": pos}})
-    scen.append({"sc": "c16.reverse", "args": {"clients": 2, "calls": 2, "reverse": True, "lose": "queued"}})
+    for rep in range(4):     # what happens to the queued reverse calls depends on a race inside the dying connection: several runs
+        scen.append({"sc": "c16.reverse", "args": {"clients": 2, "calls": 2, "reverse": True, "lose": "queued", "rep": rep}})
     scen.append({"sc": "c16.reverse", "args": {"clients": 3, "calls": 2, "reverse": True, "notifycb": True}})
     scen.append({"sc": "c16.reverse", "args": {"clients": 4, "calls": 4, "reverse": True, "alias2": True}})     # clients with different alias tables
     scen.append({"sc": "c16.reverse", "args": {"clients": 2, "calls": 2, "reverse": False}})
